@@ -1,10 +1,10 @@
 (* Proofs/PfDivSmall.v — small.rs: the wrappers div_2x1_mg10 / div_3x2_mg10 / reciprocal_2_mg10
    under their preconditions, and the n-by-1 / n-by-2 schoolbook loops (normalised and with
-   on-the-fly shifting).  Everything is stated under explicit hypotheses about the reciprocal
-   and the 3-by-2 step (Section hypotheses), discharged in PfDiv.v. *)
+   on-the-fly shifting).  The facts about the reciprocal and the 3-by-2 step come from
+   PfDivRecip.v and PfDiv3x2.v. *)
 From Coq Require Import ZArith List Bool Lia.
 From RV.Model Require Import Base Word DivRecip DivSmall.
-From RV.Proofs Require Import BaseFacts PfDivBase PfDiv2x1.
+From RV.Proofs Require Import BaseFacts PfDivBase PfDiv2x1 PfDiv3x2 PfDivRecip.
 Import ListNotations.
 Local Open Scope Z_scope.
 
@@ -256,9 +256,9 @@ Proof.
 Qed.
 
 Section Small.
-  Hypothesis HR : RecipOK.
-  Hypothesis H32 : Div3x2OK.
-  Hypothesis HR2 : Recip2OK.
+  Let HR : RecipOK := RecipOK_holds.
+  Let H32 : Div3x2OK := div_3x2_body_spec.
+  Let HR2 : Recip2OK := recip2_body_spec.
 
   Lemma hi128_norm d : 2 ^ 127 <= d < B * B -> 2 ^ 63 <= hi128 d < B.
   Proof.
